@@ -34,9 +34,14 @@ EXPECT = {
     "SP shell":                    ((P, P),     (E, C),     (E, C),     (E, C),     (E, C)),
     "SS generalized contraction":  ((E, C),     (E, C),     (E, C),     (E, C),     (E, C)),
     "PD shell, Cartesian p + pure d": ((E, C),   (E, C),     (E, C),     (E, E),     (E, E)),
+    # without orbitals (where the writer accepts that) the basis still has to fit the format
+    "no orbitals, SS generalized contraction": (("mo", (E, C)), ("mo", (E, C)), ("mo", (E, C)), ("mo", (E, C)), ("mo", (E, C))),
+    "no orbitals, SP shell":       (("mo", (P, P)), ("mo", (E, C)), ("mo", (E, C)), ("mo", (E, C)), ("mo", (E, C))),
 }
 FORMATS = ("fchk", "molden", "molekel", "wfn", "wfx")
 WHY = {
+    "no orbitals, SS generalized contraction": "no format stores general contractions, with or without orbitals",
+    "no orbitals, SP shell": "only FCHK can store SP shells, with or without orbitals",
     "ROHF, hole below": "FCHK stores electron counts, not occupations: only aufbau occupations (alpha AND beta) can be represented",
     "fractional occupations": "FCHK cannot represent fractional occupations",
     "unrestricted, beta hole": "FCHK: the beta occupations must be aufbau as well",
@@ -83,6 +88,8 @@ def _objects(prog):
         "SP shell": lambda: mk(obasis=basis(shell([0, 1], ["c", "c"]))),
         "SS generalized contraction": lambda: mk(obasis=basis(shell([0, 0], ["c", "c"]))),
         "PD shell, Cartesian p + pure d": lambda: mk(obasis=basis(shell([1, 2], ["c", "p"]))),
+        "no orbitals, SS generalized contraction": lambda: mk(mo=None, obasis=basis(shell([0, 0], ["c", "c"]))),
+        "no orbitals, SP shell": lambda: mk(mo=None, obasis=basis(shell([0, 1], ["c", "c"]))),
     }
 
 
@@ -112,6 +119,9 @@ def check_guard_semantics(ctx, rid):
                 declared_case = isinstance(want, str)
                 if declared_case:
                     want = (E, E) if want in required.get(short, set()) else (P, P)
+                elif isinstance(want[1], tuple):
+                    # (attribute, outcome when the writer accepts objects without that attribute)
+                    want = (E, E) if want[0] in required.get(short, set()) else want[1]
                 for ai, allow in enumerate((False, True)):
                     data = objs[case]()
                     ev = AccessorEval(prog, mo_cls, limit=4000)
